@@ -149,6 +149,17 @@ def one(args):
                                          "a model of the formulas handed to the engine falsifies the assertions of frame %d (check %d)" % (i, k),
                                          dict(frame=i, assertions=sx_str(act[i][1]), given=[sx_str(r) for r in Rs], model=detail)))
                         break
+                # (3) no model lost: when the given formulas mention no auxiliary symbol, they must follow from the assertions
+                if not aux_decls and not any(f[0].startswith("assertions-do-not-imply") for f in findings):
+                    for r in Rs:
+                        if sx_str(r) in [sx_str(o) for o in Os] or r == "true":
+                            continue
+                        how, detail = refuted(Os, r, "back")
+                        if how:
+                            findings.append(("assertions-do-not-imply-preprocessed:%s:%s" % (how, mode),
+                                             "a model of the assertions falsifies a formula handed to the engine (check %d): preprocessing adds a fact that does not follow" % k,
+                                             dict(assertions=[sx_str(o) for o in Os], given=sx_str(r), model=detail)))
+                            break
                 zo, _ = sc.ref_answer("z3", logic, decls + aux_decls, Os)
                 if zo == "sat":
                     zr, _ = sc.ref_answer("z3", logic, decls + aux_decls, Rs)
